@@ -59,7 +59,8 @@ def strategy():
         # keep the config line within the parser's limit
         while len(",".join(texts)) > 960:
             texts.pop()
-        return {"ruids": ruids, "euids": euids, "list": texts}
+        return {"ruids": ruids, "euids": euids, "list": texts, "pre_errno": draw(st.sampled_from([0, 0, 34, 22, 4])),
+                "ini_mode": draw(st.sampled_from(["644", "644", "600"]))}
     return case()
 
 
@@ -76,8 +77,10 @@ def evaluate(env, c):
         ops.append(drv.op("Q"))
         for flt in (b"only_uid:" + L, b"exclude_uid:" + L, b"only_root"):
             ini = gen.render_ini([(b"output", b"file:" + out.encode() + b"/log"), (b"message_format", b"R"), (b"filter_chain", flt)])
-            ops += [drv.op("U", -1, -1, -1, -1, 0, -1), drv.op("x", out + "/log"), drv.op("C", ini),
-                    drv.op("U", -1, -1, -1, ruid, euid, 0),
+            # a root-only (0600) config file is still readable when the EFFECTIVE uid is root, whatever the real uid
+            mode = c.get("ini_mode", "644") if euid == 0 else "644"
+            ops += [drv.op("U", -1, -1, -1, -1, 0, -1), drv.op("x", out + "/log"), drv.op("C", ini, mode),
+                    drv.op("U", -1, -1, -1, ruid, euid, 0), drv.op("e", c.get("pre_errno", 0)),
                     drv.op_exec("e", b"/bin/x", [b"x"], [], ret=-1, err=2), drv.op("G")]
             plan.append((ruid, euid, flt.split(b":")[0].decode()))
     res = d.scenario(ops)
